@@ -200,6 +200,15 @@ class ExprMixin:
                     j = join(j, t) if j is not None else None
                 if j is not None:
                     return k("({} ++ [{}])".format(coerce(l, tl, TList(j)), ", ".join(coerce(c, t, j) for c, t in tails)), TList(j))
+                if isinstance(resolve(tl.elem), TInt) and all(
+                        isinstance(resolve(t), TInt) or (isinstance(resolve(t), TUnion) and isinstance(resolve(resolve(t).a), TInt))
+                        for _, t in tails):
+                    # literals: an entry computed by `group(i)` must be the scalar
+                    def ints_(i, acc):
+                        if i == len(tails):
+                            return k("({} ++ [{}])".format(l, ", ".join(acc)), TList(INT))
+                        return self.as_int(tails[i][0], tails[i][1], lambda v: ints_(i + 1, acc + [v]))
+                    return ints_(0, [])
                 return k("(" + ", ".join([l] + [c for c, _ in tails]) + ")", THet(tl.elem, [t for _, t in tails]))
             return self.exprs([e.left] + list(e.right.elts), env, het)
 
